@@ -423,6 +423,9 @@ def cases_c11(ctx, boost):
         for b in (0x04, 0x07, 0x08, 0x0B, 0x09, 0x0D, 0x40, 0x42, 0x7F, 0x00, 0x03, 0x80, 0xFF):
             for n, hxp in big.items():
                 out.append(Case("req", cfg, f"req {cfg} {b:02x}{hxp}", tag=f"byte + {n} payload bytes", expect_no_panic=True))
+                if str(n).startswith(("nest", "mapnest")) and b not in (0x09, 0x0D, 0x00, 0x03, 0x80, 0xFF):
+                    # parameter-less commands: what follows is not looked at, so nesting depth cannot matter — also on a small stack
+                    out.append(Case("reqs", cfg, f"reqs {cfg} {b:02x}{hxp}", tag=f"byte + {n} payload, small stack", expect_no_panic=True))
         for b in range(256):
             out.append(Case("op", cfg, f"op {b}", tag="try_from/into"))
             out.append(Case("vop", cfg, f"vop {b}", tag="vendor try_from"))
